@@ -3,12 +3,178 @@ from __future__ import annotations
 
 from . import rules_agree as A
 from . import rules_cache as C
+from . import rules_compose as K
+from . import rules_option as O
+from . import rules_pipeline as P
+from . import rules_runtime as R
+from . import rules_select as S
+from . import rules_switch as W
 
 RULES = {
     "R-KC": A.rule_KC, "R-VA": A.rule_VA, "R-XA": A.rule_XA, "R-OA": A.rule_OA,
     "R-EV": A.rule_EV, "R-EG": A.rule_EG, "R-SL": A.rule_SL,
     "R-FP": C.rule_FP, "R-CP": C.rule_CP, "R-MC": C.rule_MC, "R-CE": C.rule_CE,
     "R-OS": C.rule_OS, "R-RK": C.rule_RK,
+    "R-DC": K.rule_DC, "R-CC": K.rule_CC, "R-CL": K.rule_CL, "R-LB": K.rule_LB,
+    "R-MX": K.rule_MX, "R-TK": K.rule_TK,
+    "R-MS": O.rule_MS, "R-FV": O.rule_FV, "R-AB": O.rule_AB, "R-MP": O.rule_MP,
+    "R-KN": O.rule_KN, "R-PU": O.rule_PU, "R-DK": O.rule_DK, "R-PO": O.rule_PO,
+    "R-HO": P.rule_HO, "R-HF": P.rule_HF, "R-PI": P.rule_PI,
+    "R-RE": R.rule_RE, "R-NR": R.rule_NR, "R-DF": R.rule_DF, "R-HI": R.rule_HI,
+    "R-EX": R.rule_EX, "R-LS": R.rule_LS, "R-CW": R.rule_CW, "R-TI": R.rule_TI,
+    "R-SO": S.rule_SO, "R-OP": S.rule_OP, "R-EO": S.rule_EO, "R-RG": S.rule_RG,
+    "R-ID": S.rule_ID, "R-EH": S.rule_EH, "R-CH": S.rule_CH, "R-CD": S.rule_CD,
+    "R-VP": W.rule_VP, "R-SH": W.rule_SH, "R-DH": W.rule_DH, "R-L1": W.rule_L1,
+    "R-WR": W.rule_WR, "R-RQ": W.rule_RQ, "R-HD": W.rule_HD, "R-MF": W.rule_MF,
+    "R-PL": W.rule_PL, "R-PF": W.rule_PF, "R-GA": W.rule_GA,
 }
 
-PROPS = {}
+COMMON_ASSUMPTIONS = [
+    "CPython's ast module parses /repo/labrea exactly as the interpreter would",
+    "only the structural clauses named in coverage.explanation are decided; values, counts, schedules and histories are not explored",
+    "third-party subclasses of the labrea ABCs and user-supplied callables are outside the analysed program",
+    "confectioner (mix, resolve, get_dotted_key, dotted_key_exists, set_dotted_key) behaves as documented: mix(dish, ingredient) lets the ingredient win and copies",
+    "dynamic idioms (getattr(member, method), dir(cls), metaclass instantiation, __init_subclass__ rebinding) are modelled by the explicit idiom table of sa/interp.py",
+]
+
+
+def _p(rules, explanation, undecided, filters=None, floors=None, extra_assumptions=()):
+    return {"rules": rules, "explanation": explanation, "undecided": undecided, "filters": filters or {},
+            "floors": floors or {}, "assumptions": COMMON_ASSUMPTIONS + list(extra_assumptions)}
+
+
+PROPS = {
+    "C01": _p(["R-KC", "R-FP", "R-CP", "R-MC", "R-DC", "R-OA", "R-RK", "R-OS", "R-PO", "R-MX"],
+              "Decides the key-set mechanism behind cache transparency, not values: every child that any evaluate() path of any of the "
+              "node classes consults is keyed on the same path of keys() (through constructed wrapper terms); the fingerprint reads "
+              "nothing but sorted keyed pairs; Cached uses one (evaluatable, options, cache) triple for exists/get/set/keys and stores "
+              "only a successfully computed value; MemoryCache indexes by the same fingerprint in get/set/exists; the dataset nests "
+              "default-options > pre-set options > cached; inspection methods pass the same options form as evaluate; container values "
+              "whose templates resolve() follows are inspected by Option.keys; no evaluate returns a one-shot iterator.",
+              "whether stored values equal uncached evaluation for concrete graphs; prefix relations between run-time key strings "
+              "(a whole-section key partly supplied by a pre-set dictionary, finding F13); history effects",
+              floors={"R-KC": 30, "R-OA": 80}),
+    "C02": _p(["R-FP", "R-PO", "R-OA", "R-DC", "R-EO", "R-CP"],
+              "Decides the structural conditions for effective memoization: the fingerprint depends on keys(options) only (extra or "
+              "re-ordered top-level keys cannot split entries); WithOptions.keys removes keys fixed by the pre-set dictionary; "
+              "Computation and Logged sit inside cached() so effects and logging happen only on a miss; the effect runs after the "
+              "body with its value; the set handler stores and reads back.",
+              "the number of body executions for concrete DAGs, sharing inside one evaluation, behaviour of over-wide key sets",
+              filters={"R-PO": ["WithOptions"], "R-EO": ["Computation", "CallbackEffect", "ChainedEffect"], "R-OA": ["WithOptions", "Cached", "Dataset"]}),
+    "C03": _p(["R-PO", "R-FP", "R-KC", "R-DK", "R-RK"],
+              "Decides: every component of every keys() result is a child's keys, an empty set, a literal key guarded by "
+              "dotted_key_exists, or a filtered subset (WithOptions filter checked as a propositional formula on all 8 assignments); "
+              "the fingerprint is a deterministic function of the sorted keyed pairs (no hash/id/set-order/environment dependence); "
+              "nothing consulted is unkeyed; dotted keys are only looked up through dotted accessors.",
+              "restrict-and-re-evaluate equality on concrete dictionaries; F13"),
+    "C04": _p(["R-MS", "R-FV", "R-AB", "R-MP", "R-KN", "R-PU", "R-CC"],
+              "Decides: the MISSING sentinel and looked-up values never flow into a truthiness test (presence is decided by "
+              "KeyError/dotted_key_exists only); the default is consulted only on the key-absent branch behind `is not MISSING`; "
+              "every returning path of Option.evaluate passes the returned value through the type request and the domain check, and "
+              "a rejecting domain always raises; KeyNotFoundError names key and source; Option.set builds a fresh dictionary and "
+              "mixes it over the input; re-keying an Option into a namespace carries every field.",
+              "the values returned for particular dictionaries; list-index and prefix-key semantics inside confectioner",
+              filters={"R-CC": ["Option(", "Namespace(", "_Auto("], "R-PU": ["labrea.option", "labrea.template"]}),
+    "C05": _p(["R-SO", "R-OP", "R-SL", "R-EO"],
+              "Decides only the selection/order skeleton: switch indexes the table by the dispatch value, default exactly on dispatch "
+              "failure or miss, SwitchError without default; case-when returns the result paired with the first condition that holds; "
+              "coalesce returns at the first member that validates and evaluates; collections and the Map product iterate in stored "
+              "order from one mapping; Apply/Bind/FunctionApplication apply the function to the evaluated parts.",
+              "value equality with a reference interpreter for arbitrary expression trees (most of the property)"),
+    "C06": _p(["R-CL", "R-SL", "R-AB", "R-EO", "R-EV"],
+              "Decides: no evaluation op is reachable from construction/decoration/registration code (whole-program reachability "
+              "over resolved callees); unselected switch/case/coalesce branches never receive an op; the default is touched only when "
+              "the key is absent; the source of >> is evaluated before the function; inspection methods evaluate selectors only.",
+              "which bodies actually ran for a given dictionary"),
+    "C07": _p(["R-RG", "R-LB", "R-KC", "R-DC", "R-CC", "R-ID", "R-CW", "R-SO"],
+              "Decides: an implementation registers nothing before all rejections are decided; the overload switch is rebuilt from "
+              "the live table on every use; the dispatch is keyed on every successful-dispatch path; the callback is applied outside "
+              "the switch; derivatives share overloads and cache by reference; every interface member receives the interface's "
+              "dispatch; the overload table is replaced, never mutated.",
+              "which implementation a given dictionary selects; cross-member consistency of values",
+              filters={"R-KC": ["Switch", "Overloaded", "_DependsOn", "Dataset"], "R-CC": ["Dataset(", "Overloaded("], "R-SO": ["Switch"],
+                       "R-DC": ["callback", "delegates"]}),
+    "C08": _p(["R-MX", "R-OA", "R-DC", "R-CC", "R-PU"],
+              "Decides: WithOptions mixes the pre-set dictionary as the winning ingredient exactly when forced; all four ops see the "
+              "mixed dictionary; dataset decorator options end in the same wrappers in the right nesting; with_options / "
+              "with_default_options mix new over stored and carry every other field; no function mutates an options dictionary it did "
+              "not allocate.",
+              "merge semantics of confectioner.mix itself; F13",
+              filters={"R-CC": ["Dataset("], "R-OA": ["WithOptions", "Dataset", "Map"]}),
+    "C09": _p(["R-TK", "R-KC", "R-RK", "R-CH"],
+              "Decides: Template.keys/explain/validate iterate the same key source as evaluate resolves, skip exactly the :param: "
+              "keys, delegate every other key to Option(key).<same op> (transitivity), and visit all params; Option.keys/explain "
+              "inspect every container kind whose embedded references resolve() follows; KeyError translations are chained.",
+              "the substituted text",
+              filters={"R-KC": ["Template", "Option"], "R-CH": ["Template", "Option"]}),
+    "C10": _p(["R-VA", "R-KC", "R-OA", "R-CP", "R-EV", "R-SL"],
+              "Decides: for every node class, every evaluate path's children are covered by one validate path; the same children are "
+              "keyed; the same options form is passed; Cached.validate skips only on exists; inspection evaluates selectors only; "
+              "unselected branches are not validated.",
+              "agreement for a particular dictionary when it hinges on values",
+              filters={"R-CP": ["validate"]}),
+    "C11": _p(["R-XA", "R-EG", "R-OA", "R-EV"],
+              "Decides: every child keyed or validated is explained, path by path for equal selections; every evaluate/validate "
+              "reached from an explain method lies inside a try that catches EvaluationError and raises "
+              "InsufficientInformationError from it or falls back statically.",
+              "the iterative fill-until-valid behaviour on concrete dictionaries"),
+    "C12": _p(["R-EH", "R-CH", "R-CD", "R-KN", "R-CP", "R-MC", "R-WR"],
+              "Decides: the default evaluate handler wraps every exception into EvaluationError(source = this object) chained with "
+              "`from`, re-raising its own; all raises inside handlers are chained; only documented fall-through points catch "
+              "EvaluationError and nothing else catches Exception; the only path into the memo dictionary is CacheSetRequest built in "
+              "Cached.evaluate from a successful inner evaluation.",
+              "the concrete cause chain for a given graph; outcomes of later evaluations",
+              filters={"R-CP": ["store-after-compute"], "R-MC": ["writes", "constructs", "calls Cache.set"], "R-WR": ["__init_subclass__", "_evaluate_request", "directly"]}),
+    "C13": _p(["R-HO", "R-HF", "R-PI", "R-KC", "R-XA", "R-EO"],
+              "Decides: the operand order of each helper step by symbolic beta-reduction of partial(f, …) against the documented "
+              "behaviour; every option-valued helper parameter is handed to the step as an evaluated argument, not captured; "
+              "PipelineStep/Pipeline/PartialApplication key and explain their parameters; __iter__ yields rest before tail, "
+              "evaluate applies rest innermost, + appends the right operand's steps.",
+              "associativity/identity of + over all bracketings (a structural induction, not attempted); transform values",
+              filters={"R-KC": ["Pipeline", "PartialApplication", "Apply", "FunctionApplication", "EvaluatableArg", "EvaluatableKwargs"],
+                       "R-XA": ["Pipeline", "PartialApplication", "Apply", "FunctionApplication", "EvaluatableArg", "EvaluatableKwargs"],
+                       "R-EO": ["Pipeline", "Apply", "PartialApplication"]}),
+    "C14": _p(["R-RE", "R-NR", "R-DF", "R-HI", "R-EX", "R-TI"],
+              "Decides: the runtime to restore is saved per entry and per thread (re-entrancy), None is never stored in the "
+              "thread->runtime table, run() falls back to the default table at call time and fails with TypeError otherwise, "
+              "handlers are assigned once from a fresh dict and handle() derives a new Runtime, __exit__ restores on every path "
+              "independent of the exception and returns nothing truthy, every table index is the current thread.",
+              "the stack discipline over arbitrary enter/exit histories (needs a model)"),
+    "C15": _p(["R-LS", "R-CW", "R-TI", "R-RE", "R-MC"],
+              "Decides the lock and ownership discipline only: every access to the thread->runtime table under the module lock and "
+              "keyed by the current thread; the overload table written under the object's lock and replaced copy-on-write; restore "
+              "state of shared runtime objects is per thread; cache entries addressed by fingerprint in all three operations.",
+              "behaviour under interleavings — no schedule is explored (most of the property)",
+              filters={"R-MC": ["key-is-fingerprint"]}),
+    "C16": _p(["R-VP", "R-SH", "R-DH", "R-L1", "R-DC"],
+              "Decides: no data flow from a switch, an effect result or a log result into any returned value; the three cache "
+              "handlers test both switch spellings first and delegate to disabled twins that touch no backend; the effects switch "
+              "selects between two terms containing the same calculation; exactly one log request per Logged.evaluate path, Logged "
+              "inside cached.",
+              "observed counts of recomputation and emitted records",
+              filters={"R-DC": ["effects", "calculation", "Logged"]}),
+    "C17": _p(["R-CE", "R-CP"],
+              "Decides: CacheGetFailure cannot escape Cached.evaluate/validate, Cache.exists or the set/exists handlers through any "
+              "resolved call chain; every return of Cached.evaluate is the retrieved, the stored-and-read-back or the freshly "
+              "computed value; a failed get falls through to the computation; the set handler falls back to request.value.",
+              "backends that violate the Cache contract in other ways (other exception types)"),
+    "C18": _p(["R-WR", "R-RQ", "R-HD", "R-MP", "R-L1"],
+              "Decides nearly the whole mechanism: the four ABC hooks replace every op by a request-issuing wrapper and the default "
+              "handlers call the saved implementation; nothing else calls the saved implementations; every concrete class defines "
+              "plain methods; cache/log/type-check sites go through XRequest(...).run(); backends are called only by handlers; every "
+              "request type has a default handler.",
+              "third-party subclasses; that a pass-through handler changes no value",
+              filters={"R-MP": ["type request"]}),
+    "C19": _p(["R-DK", "R-MF", "R-KC", "R-VA", "R-XA"],
+              "Decides: relevant options are read with dotted accessors; validate/keys/explain/instantiation enumerate members with "
+              "the same source and predicate; __eq__ and __repr__ read the recorded relevant options; members are children for key "
+              "coverage / validate / explain agreement.",
+              "instance attribute values",
+              filters={"R-KC": ["_DatasetClassMeta"], "R-VA": ["_DatasetClassMeta"], "R-XA": ["_DatasetClassMeta"], "R-DK": ["datasetclass"]}),
+    "C20": _p(["R-PL", "R-PF", "R-GA"],
+              "Decides necessary conditions of picklability: every class holding a lock drops it in __getstate__ and re-creates it in "
+              "__setstate__; node classes use default instance pickling (no __slots__); no wrapper object takes a decorated function's "
+              "name while retaining the function without customising pickling; __getattr__ rejects private names before touching "
+              "instance state.",
+              "behavioural equality after a round trip, protocols, fresh-process loading"),
+}
